@@ -662,3 +662,243 @@ def unreadable_source_file(run, sb):
         viol(run, 'exit 0 only if every planned copy was carried out; and the entries and counts a dry run announces are those the real run copies', dry_run_says=would.group(0) if would else None,
              real_run_says=did.group(0) if did else None, real_rc=0, destination=sorted(p.decode() for p in d), stderr=rr['err'][-300:]); return
     shutil.rmtree(base, ignore_errors=True)
+
+
+# ------------------------------------------------------------------ round 9
+
+@trial('C03', 'C06', 'C04')
+def mixed_placement_newline_names(run, sb):
+    """one side remote, a filter whose match relies on `.`, a file whose name holds a line break on both sides, the destination's newer, the
+    behaviour for that case error / skip: the two sides must reach the same verdict, and the destination file is not overwritten"""
+    sb.place_remote('same')
+    name = 'no\nte.txt'
+    for placement in ('remote-dest', 'remote-src'):
+        for flt in ('+.*\\.txt', '-.*\\.bak'):
+            base = os.path.join(sb.dir, 'mpn-%s-%d' % (placement, len(flt)))
+            src, dst = os.path.join(base, 'src'), os.path.join(base, 'dst')
+            l3.make_tree(src, [('', 'D'), (name, 'F', b'older source', 10**18), ('plain.txt', 'F', b'p', 10**18)])
+            l3.make_tree(dst, [('', 'D'), (name, 'F', b'NEWER destination', 2 * 10**18)])
+            before = l3.snapshot(dst).get(name.encode())
+            a = [('localhost:' if placement == 'remote-src' else '') + src + '/', ('localhost:' if placement == 'remote-dest' else '') + dst + '/', '--filter', flt, '--dest-file-newer', 'error', '--deploy', 'error']
+            r = l4.run_cli(a, env=sb.env(), timeout=90)
+            after = l3.snapshot(dst).get(name.encode())
+            run.case(('trial', 'mixed-placement-newline-names', placement, flt), True, sample=dict(layer='L4', trial='mixed-placement-newline-names', placement=placement, filter=flt, rc=r['rc']))
+            run.count('trial:mixed-placement-newline-names')
+            if after != before:
+                viol(run, 'source and destination reach the same filter verdict for the same relative path, and an existing destination file is overwritten only if the behaviour for its case resolves to overwrite (it is error)',
+                     placement=placement, filter=flt, name=name, rc=r['rc'], before=str(before), after=str(after), stderr=r['err'][-300:]); return
+            shutil.rmtree(base, ignore_errors=True)
+
+
+@trial('C05')
+def dry_run_names_control_chars(run, sb):
+    """entries whose names hold control characters (tab, BEL, ESC, 0x01, DEL): the 'Would ...' lines of a dry run name exactly the entries the
+    real run then deletes, copies and creates (byte for byte)"""
+    import re
+    base = os.path.join(sb.dir, 'dnc')
+    src, dst = os.path.join(base, 'src'), os.path.join(base, 'dst')
+    l3.make_tree(src, [('', 'D'), ('with\ttab.txt', 'F', b't', 10**18), ('with?tab.txt', 'F', b'q', 10**18), ('bell\x07.bin', 'F', b'b', 10**18), ('dir\x1f', 'D'), ('dir\x1f/in', 'F', b'i', 10**18), ('lnk\x01', 'L', 'x')])
+    l3.make_tree(dst, [('', 'D'), ('with?tab.txt', 'F', b'q', 10**18), ('stale\x02.txt', 'F', b's', 10**18), ('old\x7fdir', 'D')])
+    rd = l4.run_cli([src + '/', dst + '/', '--dry-run'], env=sb.env(), timeout=60)
+    before = l3.snapshot(dst)
+    rr = l4.run_cli([src + '/', dst + '/'], env=sb.env(), timeout=60)
+    after = l3.snapshot(dst)
+    changed = sorted(p for p in set(before) | set(after) if p and before.get(p) != after.get(p))
+    text = (rd['out'] + rd['err']).encode('utf-8', 'surrogateescape') if isinstance(rd['out'], str) else rd['out']
+    named = set()
+    for line in text.split(b'\n'):
+        if line.startswith(b'Would ') and b"'" in line:
+            last = line.rsplit(b"'", 2)
+            if len(last) == 3:
+                p = last[1]
+                if p.startswith(dst.encode() + b'/'):
+                    named.add(p[len(dst) + 1:])
+    run.case(('trial', 'dry-run-names-control-chars'), True, sample=dict(layer='L4', trial='dry-run-names-control-chars', dry_rc=rd['rc'], real_rc=rr['rc'], changed=len(changed), named=len(named)))
+    run.count('trial:dry-run-names-control-chars')
+    missing = [p for p in changed if p not in named]
+    extra = [p for p in named if p not in changed]
+    if rd['rc'] != 0 or rr['rc'] != 0 or missing or extra:
+        viol(run, "the 'Would delete / Would copy / Would create' lines of a dry run name exactly the entries that the same command without --dry-run then deletes, copies and creates",
+             dry_rc=rd['rc'], real_rc=rr['rc'], changed_but_not_named=[repr(p) for p in missing], named_but_not_changed=[repr(p) for p in extra]); return
+    shutil.rmtree(base, ignore_errors=True)
+
+
+@trial('C06', 'C16')
+def spec_filters_with_blanks(run, sb):
+    """filters in a spec file whose regular expression begins or ends with white space that belongs to it (a quoted string ending in CR /
+    blank): the filter is used as written, exactly as the same sync given on the command line"""
+    base = os.path.join(sb.dir, 'sfb')
+    src = os.path.join(base, 'src')
+    l3.make_tree(src, [('', 'D'), ('Icon', 'F', b'plain', 10**18), ('Icon\r', 'F', b'cr', 10**18), ('a.txt', 'F', b'a', 10**18), ('sub', 'D'), ('sub/Icon', 'F', b'p2', 10**18), ('sub/Icon\r', 'F', b'cr2', 10**18), ('end ', 'F', b'e', 10**18)])
+    d_spec, d_cli = os.path.join(base, 'd-spec'), os.path.join(base, 'd-cli')
+    spec = os.path.join(base, 'spec.yaml')
+    open(spec, 'w').write('syncs:\n  - src: %s/\n    dest: %s/\n    filters: [ "-(.*/)?Icon\\r", \'-(.*/)?[^/]* \' ]\n' % (src, d_spec))
+    r1 = l4.run_cli(['--spec', spec], env=sb.env(), timeout=60)
+    r2 = l4.run_cli([src + '/', d_cli + '/', '--filter', '-(.*/)?Icon\r', '--filter', '-(.*/)?[^/]* '], env=sb.env(), timeout=60)
+    s1, s2 = sorted(l3.snapshot(d_spec)), sorted(l3.snapshot(d_cli))
+    want = sorted([b'', b'Icon', b'a.txt', b'sub', b'sub/Icon'])
+    run.case(('trial', 'spec-filters-with-blanks'), True, sample=dict(layer='L4', trial='spec-filters-with-blanks', spec_rc=r1['rc'], cli_rc=r2['rc']))
+    run.count('trial:spec-filters-with-blanks')
+    if r1['rc'] != 0 or r2['rc'] != 0 or s1 != want or s2 != want:
+        viol(run, 'a filter matches the entire path with the regular expression as written (white space included); a sync described in a spec file behaves exactly like the same sync given as SRC DEST',
+             spec_rc=r1['rc'], cli_rc=r2['rc'], expected=[repr(p) for p in want], via_spec=[repr(p) for p in s1], via_command_line=[repr(p) for p in s2]); return
+    shutil.rmtree(base, ignore_errors=True)
+
+
+def _wrap_ssh(sb, name, body):
+    """a bin directory in front of the sandbox's whose `ssh` is the given script (it may exec "$REAL_SSH" "$@")"""
+    d = os.path.join(sb.dir, name); os.makedirs(d, exist_ok=True)
+    p = os.path.join(d, 'ssh'); open(p, 'w').write('#!/bin/bash\nREAL_SSH=%s\n' % os.path.join(sb.bin, 'ssh') + body); os.chmod(p, 0o755)
+    return d
+
+
+@trial('C09', 'C15')
+def ssh_ends_before_the_handshake(run, sb):
+    """ssh (or what it starts) ends before the start-up handshake completes, without one of the recognised 'not present' messages: connection
+    refused, authentication failure, a doer that dies at once, a doer that prints its version and dies: the boss gives up within bounded time"""
+    base = os.path.join(sb.dir, 'seh'); src = os.path.join(base, 'src')
+    l3.make_tree(src, [('', 'D'), ('f', 'F', b'x', 10**18)])
+    ver = sb.real_version()
+    variants = {
+        'refused': 'echo "ssh: connect to host $1 port 22: Connection refused" >&2; exit 255\n',
+        'silent-exit': 'exit 1\n',
+        'doer-dies-after-version': 'echo "rjrssync doer v%s"; echo "rjrssync doer v%s" >&2; exit 3\n' % (ver, ver),
+        'garbage-then-exit': 'echo "Welcome to host"; echo "motd" >&2; sleep 0.2; exit 0\n',
+    }
+    for vname, body in variants.items():
+        for place in ('dest', 'src'):
+            bindir = _wrap_ssh(sb, 'bin-' + vname, body)
+            env = sb.env(); env['PATH'] = bindir + ':' + env['PATH']
+            a = [('localhost:' if place == 'src' else '') + src + '/', ('localhost:' if place == 'dest' else '') + os.path.join(base, 'dst') + '/', '--deploy', 'error']
+            r = l4.run_cli(a, env=env, timeout=30)
+            run.case(('trial', 'ssh-ends-before-the-handshake', vname, place), True, sample=dict(layer='L4', trial='ssh-ends-before-the-handshake', variant=vname, remote=place, rc=r['rc'], wall_s=round(r['wall'], 2)) if place == 'dest' else None)
+            run.count(f'trial:ssh-ends-before-the-handshake:rc={r["rc"]}')
+            if r['timeout'] or r['rc'] in (0, None):
+                viol(run, 'a doer process or its connection dying at any point - also before the handshake completes - makes rjrssync hand control back within bounded time with a non-zero status',
+                     variant=vname, remote=place, rc=r['rc'], timed_out=r['timeout'], stderr=r['err'][-300:]); return
+    shutil.rmtree(base, ignore_errors=True)
+
+
+@trial('C15')
+def unrelated_ssh_lines_with_alarming_words(run, sb):
+    """unrelated ssh output before and between the handshake lines that contains alarming words ('Permission denied, please try again.',
+    'Connection refused', 'No such file' inside a longer banner ...): a doer of the right version is still used"""
+    sb.place_remote('same')
+    base = os.path.join(sb.dir, 'usl'); src = os.path.join(base, 'src')
+    l3.make_tree(src, [('', 'D'), ('f', 'F', b'x', 10**18)])
+    noises = ['Permission denied, please try again.', '/etc/profile.d/x.sh: line 3: /opt/y: Permission denied', 'debug1: connect to address ::1 port 22: Connection refused',
+              'Warning: Permanently added host (ED25519) to the list of known hosts.', 'bind: Address already in use', 'Could not chdir to home directory /home/u: Host is down']
+    for k, noise in enumerate(noises):
+        for stream in ('stderr', 'stdout'):
+            body = ('echo %r %s\n' % (noise, '>&2' if stream == 'stderr' else '')) + 'exec "$REAL_SSH" "$@"\n'
+            bindir = _wrap_ssh(sb, 'bin-noise', body)
+            env = sb.env(); env['PATH'] = bindir + ':' + env['PATH']
+            dst = os.path.join(base, f'dst{k}{stream}')
+            r = l4.run_cli([src + '/', 'localhost:' + dst + '/', '--deploy', 'error'], env=env, timeout=60)
+            run.case(('trial', 'unrelated-ssh-lines', k, stream), True, sample=dict(layer='L4', trial='unrelated-ssh-lines-with-alarming-words', line=noise, stream=stream, rc=r['rc']) if stream == 'stderr' and k < 2 else None)
+            run.count('trial:unrelated-ssh-lines')
+            if r['rc'] != 0 or not os.path.exists(os.path.join(dst, 'f')):
+                viol(run, 'the launch succeeds for every interleaving of the doer\'s handshake lines with unrelated ssh output lines (whatever words they contain, short of the recognised "not present" messages)',
+                     unrelated_line=noise, stream=stream, rc=r['rc'], stderr=r['err'][-300:]); return
+    shutil.rmtree(base, ignore_errors=True)
+
+
+@trial('C16', 'C15')
+def two_hosts_one_consent(run, sb):
+    """deploy behaviour prompt (the default), source and destination on two different hosts that both lack a binary, the first prompt answered
+    'Deploy', the second left unanswered: nothing is uploaded to the second host and the run fails (the behaviour in force is prompt, per deployment)"""
+    import glob
+    base = os.path.join(sb.dir, 'thc'); src = os.path.join(base, 'src')
+    l3.make_tree(src, [('', 'D'), ('f', 'F', b'x', 10**18)])
+    shutil.rmtree(os.path.join(sb.remote, 'rjrssync'), ignore_errors=True)
+    for d_ in glob.glob(sb.remote + '-*'): shutil.rmtree(d_, ignore_errors=True)
+    open(sb.log, 'w').close()
+    r = l4.run_cli(['127.0.0.1:' + src + '/', 'localhost:' + os.path.join(base, 'dst') + '/'], env=sb.env({'FAKE_PER_HOST': '1', 'RJRSSYNC_TEST_PROMPT_RESPONSE': '1:.*:Deploy'}), timeout=120)
+    ups = [l for l in sb.fake_log() if l[0] == 'scp']
+    run.case(('trial', 'two-hosts-one-consent'), True, sample=dict(layer='L4', trial='two-hosts-one-consent', uploads=len(ups), rc=r['rc']))
+    run.count('trial:two-hosts-one-consent')
+    for d_ in glob.glob(sb.remote + '-*'): shutil.rmtree(d_, ignore_errors=True)
+    if len(ups) != 1 or r['rc'] == 0 or r['timeout']:
+        viol(run, 'with the deploy behaviour prompt in force a binary is uploaded only to a host whose own prompt was answered "Deploy"; an unanswered prompt uploads nothing and fails the run',
+             uploads=[l[1] for l in ups], rc=r['rc'], stderr=r['err'][-400:]); return
+    shutil.rmtree(base, ignore_errors=True)
+
+
+@trial('C17', 'C09')
+def very_wide_tree(run, sb):
+    """a folder with more than 8192 sub-folders, and a level of 100 x 100 folders: the walk finishes and lists every entry"""
+    for shape in ('wide', 'level'):
+        base = os.path.join(sb.dir, 'vwt-' + shape); src = os.path.join(base, 'src'); os.makedirs(src)
+        if shape == 'wide':
+            for i in range(9001): os.mkdir(os.path.join(src, 'd%05d' % i))
+            n = 9001
+        else:
+            for i in range(100):
+                os.mkdir(os.path.join(src, 'p%03d' % i))
+                for j in range(100): os.mkdir(os.path.join(src, 'p%03d' % i, 'q%03d' % j))
+            n = 10100
+        r = l4.run_cli([src + '/', os.path.join(base, 'dst') + '/', '--no-progress'], env=sb.env(), timeout=60)
+        cnt = sum(len(d) for _, d, _ in os.walk(os.path.join(base, 'dst'))) if os.path.isdir(os.path.join(base, 'dst')) else 0
+        run.case(('trial', 'very-wide-tree', shape), True, sample=dict(layer='L4', trial='very-wide-tree', shape=shape, folders=n, rc=r['rc'], timed_out=r['timeout'], wall_s=round(r['wall'], 1)))
+        run.count('trial:very-wide-tree')
+        if r['timeout'] or r['rc'] != 0 or cnt != n:
+            viol(run, 'the walk lists every entry exactly once and always finishes, for every tree shape (here: %d folders on one level)' % n, shape=shape, rc=r['rc'], timed_out=r['timeout'], folders_copied=cnt); return
+        shutil.rmtree(base, ignore_errors=True)
+
+
+@trial('C07', 'C08')
+def abandoned_update_of_existing_file(run, sb):
+    """a big source file is appended to while it is copied over an older destination file (the run fails: length changed): afterwards the
+    destination path is as it was, as planned, or a partly written file - it has not vanished"""
+    import threading
+    hits = 0
+    for attempt in range(4):
+        base = os.path.join(sb.dir, f'aue{attempt}')
+        src, dst = os.path.join(base, 'src'), os.path.join(base, 'dst')
+        os.makedirs(src); os.makedirs(dst)
+        with open(os.path.join(src, 'big.bin'), 'wb') as f: f.write(b'\x5a' * (24 * 1024 * 1024))
+        l3.make_tree(dst, [('', 'D'), ('big.bin', 'F', b'older content', 10**18)])
+        stop = threading.Event()
+        def appender():
+            with open(os.path.join(src, 'big.bin'), 'ab') as f:
+                while not stop.is_set():
+                    f.write(b'x' * 4096); f.flush(); time.sleep(0.0005)
+        th = threading.Thread(target=appender, daemon=True); th.start()
+        r = l4.run_cli([src + '/', dst + '/', '--no-progress', '--dest-file-older', 'overwrite'], env=sb.env(), timeout=90)
+        stop.set(); th.join(5)
+        exists = os.path.lexists(os.path.join(dst, 'big.bin'))
+        run.case(('trial', 'abandoned-update-of-existing-file', attempt), True, sample=dict(layer='L4', trial='abandoned-update-of-existing-file', rc=r['rc'], destination_file_exists=exists) if attempt == 0 else None)
+        run.count(f'trial:abandoned-update-of-existing-file:rc={r["rc"]}')
+        if r['rc'] not in (0, None) and not exists:
+            viol(run, 'after a failed run every destination path is as it was, as it was planned to become, or a partly written file - nothing else has been touched (here: the existing file is gone)',
+                 rc=r['rc'], stderr=r['err'][-300:]); return
+        shutil.rmtree(base, ignore_errors=True)
+        if r['rc'] not in (0, None):
+            hits += 1
+            if hits >= 2: break
+
+
+@trial('C18', 'C07')
+def old_root_file(run, sb):
+    """the sync root itself is a regular file dated before 1970 (as source; as an existing destination; as the file a trailing-slash destination
+    resolves to): a documented status and a message, not a panic"""
+    old = -315619200 * 10**9          # 1960-01-01
+    cases = []
+    for k in range(3):
+        base = os.path.join(sb.dir, f'orf{k}'); os.makedirs(base)
+        s, d = os.path.join(base, 's.txt'), os.path.join(base, 'd.txt')
+        if k == 0:
+            l3.make_tree(s, [('', 'F', b'old', old)]); args = [s, d]
+        elif k == 1:
+            l3.make_tree(s, [('', 'F', b'new', 10**18)]); l3.make_tree(d, [('', 'F', b'old', old)]); args = [s, d, '--dest-file-older', 'overwrite']
+        else:
+            l3.make_tree(s, [('', 'F', b'new', 10**18)]); os.makedirs(os.path.join(base, 'dir')); l3.make_tree(os.path.join(base, 'dir', 's.txt'), [('', 'F', b'old', old)])
+            args = [s, os.path.join(base, 'dir') + '/', '--dest-file-older', 'overwrite']
+        for extra in ([], ['--dry-run']):
+            r = l4.run_cli(args + extra, env=sb.env(), timeout=60)
+            run.case(('trial', 'old-root-file', k, tuple(extra)), True, sample=dict(layer='L4', trial='old-root-file', case=k, rc=r['rc']) if not extra else None)
+            run.count(f'trial:old-root-file:rc={r["rc"]}')
+            if r['timeout'] or r['rc'] not in (0, 12) or 'panicked at' in r['err'] or (r['rc'] == 12 and 'ERROR' not in r['err']):
+                viol(run, 'every input ends with a documented exit status and, when it fails, an error message - never a panic', case=['source root', 'existing destination root', 'file inside a trailing-slash destination'][k],
+                     args=args + extra, rc=r['rc'], stderr=r['err'][-400:]); return
+        shutil.rmtree(base, ignore_errors=True)
